@@ -159,6 +159,15 @@ func genSpec(rng *rand.Rand, prop string, i int) *e2eSpec {
 			sp.Faults = append(sp.Faults, fault{Kind: kinds[rng.Intn(len(kinds))], Nth: 2 + rng.Intn(6), K: rng.Intn(4)})
 		}
 		conf.Tags[0].Chunk = int64(20 + rng.Intn(int(conf.PayloadSize)))
+		if rng.Intn(3) == 0 {
+			// payloads of many small parts, and source files that change while the
+			// failed request is in flight (the send loop drops changed files from the
+			// payload it is about to retry)
+			sp.Files = genFiles(rng, 6+rng.Intn(8), conf.PayloadSize/4+1)
+			for k := 0; k < 2+rng.Intn(4); k++ {
+				sp.Mutations = append(sp.Mutations, mutation{AtAction: 4 + rng.Intn(60), File: rng.Intn(len(sp.Files)), Kind: []string{"touch", "rewrite", "append"}[rng.Intn(3)]})
+			}
+		}
 	}
 	return sp
 }
